@@ -6,7 +6,7 @@ func init() {
 
 func runC17(c *Check) error {
 	c.Assumptions = append(c.Assumptions, stdAssumptions...)
-	every := tierEvery(c, 6, 2)
+	every := tierEvery(c, 6, 3)
 	for _, ver := range []string{"7.4", "5.6"} {
 		needs, err := c.wholeJobs("H_C17", ver, 6_000_000, true)
 		if err != nil {
@@ -18,13 +18,13 @@ func runC17(c *Check) error {
 			return err
 		}
 		c.ExploreNeeds(needs, nil)
-		needs, err = c.lexemeJobs("H_C17", ver, tierEvery(c, 4, 1), 6_000_000)
+		needs, err = c.lexemeJobs("H_C17", ver, tierEvery(c, 4, 2), 6_000_000)
 		if err != nil {
 			return err
 		}
 		c.ExploreNeeds(needs, nil)
 	}
-	c.Bounds = append(c.Bounds, bound("S5: one byte of every %d-th name, variable, integer, string body and inline-HTML token symbolic within its lexical class (names incl. bytes >= 0x80)", tierEvery(c, 4, 1)))
+	c.Bounds = append(c.Bounds, bound("S5: one byte of every %d-th name, variable, integer, string body and inline-HTML token symbolic within its lexical class (names incl. bytes >= 0x80)", tierEvery(c, 4, 2)))
 	c.Bounds = append(c.Bounds,
 		"program shapes: the committed corpus under 7.4 and 5.6, as written and with symbolic trivia in every "+bound("%d", every)+"-th inter-token gap (one gap at a time)",
 		"per path: parse, format (formatter.NewFormatter()), print, parse again, format and print again; canonicity = the formatted text equals the formatted text of the unmodified snippet")
